@@ -323,6 +323,7 @@ void XMLGrammarPoolImpl::serializeGrammars(BinOutputStream* const binOut)
 void XMLGrammarPoolImpl::deserializeGrammars(BinInputStream* const binIn)
 {
     MemoryManager *memMgr = getMemoryManager();
+    bool wasLocked = false;
     unsigned int stringCount = fStringPool->getStringCount();
     if (stringCount)
     {
@@ -376,8 +377,10 @@ void XMLGrammarPoolImpl::deserializeGrammars(BinInputStream* const binIn)
                     , memMgr);
         }
 
-        //lock status
-        serEng>>fLocked;
+        //lock status: the pool stays unlocked while it is being loaded and
+        //is locked at the end, which also sets up what a locked pool needs
+        //(synchronized string pool, XSModel)
+        serEng>>wasLocked;
 
         //StringPool, don't use >>
         fStringPool->serialize(serEng);
@@ -401,9 +404,9 @@ void XMLGrammarPoolImpl::deserializeGrammars(BinInputStream* const binIn)
     // Everything is OK, so we can release the cleanup object.
     cleanup.release();
 
-    if (fLocked)
+    if (wasLocked)
     {
-        createXSModel();
+        lockPool();
     }
 }
 
